@@ -11,7 +11,7 @@ VERIF = os.path.dirname(os.path.dirname(os.path.abspath(__file__)))
 _SCRIPT = r'''
 import sys, json, random
 sys.path.insert(0, @VERIF@)
-from specs import luagrammar as LG, reflex
+from specs import luagrammar as LG, reflex, luacorpus
 from pico8.lua import lexer, lua, parser
 binops = [t._data for t in parser.BINOP_PATS]
 unops = [t._data for t in parser.UNOP_PATS]
@@ -240,6 +240,45 @@ for stream, tree in LG.programs(rnd, binops, unops, @COUNT@, @DEPTH@):
                     bad(src, lname, 'luafmt (indentwidth %d) output parses to a different program (a line-scoped construct changed extent): %r' % (width, out[:240])); break
                 if l.get_token_count() != l2.get_token_count():
                     bad(src, lname, 'token count changed'); break
+# hand-written corpus (specs/luacorpus.py): shapes random generation reaches only by luck
+res['corpus'] = 0
+for src0 in luacorpus.PROGRAMS:
+    for src in ((src0, src0.rstrip(b'\n')) if MODE != 'canon' else (src0,)):
+        res['corpus'] += 1; res['runs'] += 1
+        try:
+            l = lua.Lua.from_lines([src], version=8)
+        except Exception as e:
+            bad(src, 'corpus', 'rejected: %s: %s' % (type(e).__name__, e)); continue
+        toks = l._lexer.tokens
+        end = l._parser.root.end_pos
+        if not all(isinstance(t, TRIVIA) or (isinstance(t, lexer.TokSymbol) and t.code == b';') for t in toks[end:]):
+            bad(src, 'corpus', 'not consumed to the last token: stopped at token %d of %d (%r)' % (end, len(toks), toks[end].code)); continue
+        if MODE == 'parse':
+            continue
+        if MODE == 'canon':
+            # re-indenting the lines of the INPUT is meaningful only where no token spans lines (the inside of a multi-line comment or
+            # string is content, not indentation)
+            if not any(b'\n' in t.code for t in toks if isinstance(t, (lexer.TokComment, lexer.TokString))):
+                canon_check(src, None)
+            continue
+        want = canon(nf(l._parser.root))
+        for width in @WIDTHS@:
+            try:
+                out = b''.join(l.to_lines(writer_cls=lua.LuaFormatterWriter, writer_args={'indentwidth': width}))
+            except Exception as e:
+                bad(src, 'corpus', 'luafmt (indentwidth %d) raised %s: %s' % (width, type(e).__name__, e)); break
+            a, b = sig_tokens(src), sig_tokens(out)
+            if a != b:
+                bad(src, 'corpus', 'luafmt (indentwidth %d) changed tokens or comments: %r' % (width, out[:200])); break
+            try:
+                l2 = lua.Lua.from_lines([out], version=8)
+                got2 = canon(nf(l2._parser.root))
+            except Exception as e:
+                bad(src, 'corpus', 'luafmt output does not parse: %s' % e); break
+            if got2 != want:
+                bad(src, 'corpus', 'luafmt (indentwidth %d) output parses to a different program (a line-scoped construct changed extent): %r' % (width, out[:240])); break
+            if l.get_token_count() != l2.get_token_count():
+                bad(src, 'corpus', 'token count changed'); break
 print(json.dumps(res))
 '''
 
